@@ -71,7 +71,7 @@ func (r *Reqs) Previous(ctx context.Context, p module.Version) (module.Version, 
 	}
 
 	major := semver.Major(p.Version)
-	selected := ""
+	selected := "none"
 	for _, v := range versions {
 		if semver.Major(v.Version) == major && semver.Compare(v.Version, p.Version) < 0 && semver.Compare(v.Version, selected) > 0 {
 			selected = v.Version
